@@ -301,7 +301,7 @@ theorem merge_matched_inner {S : Schema} (K : KeyOrderOn S P) {o : MergeOpts} {n
   obtain ⟨hsd, _, hsk⟩ := exactE_base hsex
   obtain ⟨htd, _, htk⟩ := exactE_base htex
   simp only [safeP, Bool.and_eq_true, Bool.not_eq_eq_eq_not, Bool.not_true] at hsafe
-  obtain ⟨⟨⟨htnt, _⟩, hkord⟩, hsafeK⟩ := hsafe
+  obtain ⟨⟨⟨⟨htnt, _⟩, hkc⟩, hkord⟩, hsafeK⟩ := hsafe
   cases t with
   | term => simp [DNode.isTerm] at htnt
   | inner st ft mt kt =>
@@ -795,7 +795,7 @@ theorem merge_matched_inner_nd {S : Schema} (K : KeyOrderOn S P) {o : MergeOpts}
   obtain ⟨hsd, _, hsk⟩ := exactE_base hsex
   obtain ⟨htd, htm, htk⟩ := exactE_base htex
   simp only [safeP, Bool.and_eq_true, Bool.not_eq_eq_eq_not, Bool.not_true] at hsafe
-  obtain ⟨⟨⟨htnt, _⟩, hkord⟩, hsafeK⟩ := hsafe
+  obtain ⟨⟨⟨⟨htnt, _⟩, hkc⟩, hkord⟩, hsafeK⟩ := hsafe
   cases t with
   | term => simp [DNode.isTerm] at htnt
   | inner st ft mt kt =>
@@ -1225,7 +1225,7 @@ theorem merge_matched_inner_cd {S : Schema} (K : KeyOrderOn S P) {o : MergeOpts}
   obtain ⟨hsd, _, hsk⟩ := exactE_base hsex
   obtain ⟨htd, htm, htk⟩ := exactE_base htex
   simp only [safeP, Bool.and_eq_true, Bool.not_eq_eq_eq_not, Bool.not_true] at hsafe
-  obtain ⟨⟨⟨htnt, _⟩, hkord⟩, hsafeK⟩ := hsafe
+  obtain ⟨⟨⟨⟨htnt, _⟩, hkc⟩, hkord⟩, hsafeK⟩ := hsafe
   cases t with
   | term => simp [DNode.isTerm] at htnt
   | inner st ft mt kt =>
@@ -1561,7 +1561,7 @@ theorem merge_matched_inner_cn {S : Schema} (K : KeyOrderOn S P) {o : MergeOpts}
   obtain ⟨hsd, _, hsk⟩ := exactE_base hsex
   obtain ⟨htd, htm, htk⟩ := exactE_base htex
   simp only [safeP, Bool.and_eq_true, Bool.not_eq_eq_eq_not, Bool.not_true] at hsafe
-  obtain ⟨⟨⟨htnt, _⟩, hkord⟩, hsafeK⟩ := hsafe
+  obtain ⟨⟨⟨⟨htnt, _⟩, hkc⟩, hkord⟩, hsafeK⟩ := hsafe
   cases t with
   | term => simp [DNode.isTerm] at htnt
   | inner st ft mt kt =>
@@ -1739,6 +1739,371 @@ theorem merge_matched_inner_cn {S : Schema} (K : KeyOrderOn S P) {o : MergeOpts}
     · exact Or.inr (matchP_src_of_left K hsd htd hmd hmm hm)
     · exact Or.inl (by simp [h])
 
+/-! ### an inner node deleted by the first diff and created again by the second -/
+
+theorem look_allkeys_none {S : Schema} {l : List DNode} {q : DNode} (hl : ∀ k ∈ l, S.isKey k.sid = true)
+    (hq : S.isKey q.sid = false) : look S l q = none := by
+  rw [look, List.find?_eq_none]
+  intro k hk
+  have hkk := hl k hk
+  have : (k.sid == q.sid) = false := by
+    rw [beq_eq_false_iff_ne]; intro h; rw [h, hq] at hkk; cases hkk
+  simp [matchP, this]
+
+theorem keysBelow_congr_keys {S : Schema} {c : DNode} {L X : List DNode} (h : normL13 (keysOf S X) = normL13 (keysOf S L))
+    (hk : KeysBelow S c L) : KeysBelow S c X := by
+  intro k hkm
+  have h2 : normN k ∈ normL13 (keysOf S X) := by rw [normL_eq_map13]; exact List.mem_map_of_mem hkm
+  rw [h, normL_eq_map13] at h2
+  obtain ⟨k', hk', hkk⟩ := List.mem_map.mp h2
+  have := hk k' hk'
+  have hs : k'.sid = k.sid := by
+    have := congrArg DNode.sid hkk
+    simpa using this
+  omega
+
+/-- the copy of a plain good subtree with `delete` made explicit is exact for an instance with its observation -/
+theorem exactE_deleted {S : Schema} (K : KeyOrderOn S P) {c xc : DNode} (inh : Option Op) (hg : goodN S P c = true)
+    (hp : plainN c = true) (hk : S.isKey c.sid = false) (hn : normN xc = normN c) :
+    exactE S P inh (some xc) (changeOp c .delete) = true := by
+  have hd : domB S P (changeOp c .delete) = true := domB_iff.mpr (dom_changeOp K (goodN_dom hg) .delete)
+  have hm : metaOKB (changeOp c .delete) = true := by
+    rw [changeOp_of_plain hp]; cases c <;> simp [metaOKB, DNode.setMetas, DNode.metas]
+  have ho : effOp (changeOp c .delete) inh = some .delete := by
+    rw [changeOp_of_plain hp]
+    exact effOp_own' (ownOp_of_metas _ .delete (by cases c <;> rfl)) inh
+  have hdq : dataEq true xc (changeOp c .delete) = true := by
+    rw [dataEq_iff_norm, hn, normN_changeOp]
+  rw [changeOp_of_plain hp] at hd hm ho hdq ⊢
+  cases c with
+  | term s f m v =>
+    simp only [DNode.setMetas] at hd hm ho hdq ⊢
+    simp only [exactE, hd, hm, ho, hdq, Bool.and_eq_true, Bool.true_and, Bool.and_true]
+    simpa [DNode.sid] using hk
+  | inner s f m ks =>
+    simp only [DNode.setMetas] at hd hm ho hdq ⊢
+    have hgk : goodT S P ks = true := goodN_kidsT hg
+    have hpk : plainL ks = true := by simpa [DNode.kids] using plainN_kids hp
+    simp only [exactE, hd, hm, ho, hdq, hgk, hpk, Bool.and_eq_true, Bool.true_and, Bool.and_true]
+    simpa [DNode.sid] using hk
+
+/-- an inner node DELETED by the first diff meets a `create` of the instance by the second ("delete-then-recreate", with the same
+or other descendants): the target node becomes `none`, its children `delete`, the children of the created subtree are merged
+into them (induction hypothesis `IH`); the node is dropped if nothing is left -/
+theorem merge_matched_inner_dc {S : Schema} (K : KeyOrderOn S P) {o : MergeOpts} {n : Nat} {hp : Bool} {cur sin : Option Op}
+    {s : Nat} {f : Flags} {ms : List Meta} {ks : List DNode} {t : DNode}
+    {kp pre rest L Y : List DNode} {E : DNode → Option DNode} (IH : ListMergeSpec S P fx o ks)
+    (hh : (DNode.inner s f ms ks).height ≤ n) (hgL : goodT S P L = true) (hgY : goodT S P Y = true)
+    (hkp : ∀ k ∈ kp, S.isKey k.sid = true ∧ k.sid < s)
+    (hT : TInv S P fx cur (pre ++ t :: rest) L E) (hR : Rel S P (pre ++ t :: rest) L E Y)
+    (hpre : ∀ a ∈ pre, matchP S (.inner s f ms ks) a = false) (hm : matchP S (.inner s f ms ks) t = true)
+    (hO : Orig S P cur L t) (hsafe : safeP S cur sin t (.inner s f ms ks) = true)
+    (hcop : effOp t cur = some .delete) (hsop : effOp (.inner s f ms ks) sin = some .create)
+    (hsex : exactE S P sin (look S Y (.inner s f ms ks)) (.inner s f ms ks) = true)
+    (hkb : KeysBelow S (.inner s f ms ks) Y) :
+    MergeConcl S P fx o n hp cur sin (.inner s f ms ks) kp (pre ++ t :: rest) L Y := by
+  obtain ⟨htex, hlt, hown⟩ := hO
+  obtain ⟨hsd, _, hsk⟩ := exactE_base hsex
+  obtain ⟨htd, htm, htk⟩ := exactE_base htex
+  simp only [safeP, Bool.and_eq_true, Bool.not_eq_eq_eq_not, Bool.not_true] at hsafe
+  obtain ⟨⟨⟨⟨htnt, _⟩, hkc⟩, hkord⟩, hsafeK⟩ := hsafe
+  cases t with
+  | term => simp [DNode.isTerm] at htnt
+  | inner st ft mt kt =>
+  have hss : st = s := matchP_sid hm
+  subst hss
+  have hot : ownOp (DNode.inner st ft mt kt) = some .delete := by
+    rcases hown with hown | ⟨h1, h2⟩
+    · exact hown .delete hcop (Or.inr (by decide))
+    · subst h2
+      simp only [DNode.metas] at h1
+      subst h1
+      simp [effOp, ownOp, getMeta, DNode.metas] at hcop
+  have hmt : mt = [("operation", bs "delete")] := by
+    simp only [litN, Bool.and_eq_true, litInner, Bool.or_eq_true, beq_iff_eq] at hlt
+    rcases hlt.1 with ((h | h) | h) | h
+    · subst h; simp [ownOp, getMeta, DNode.metas] at hot
+    · subst h; simp [ownOp, getMeta, DNode.metas, ofBytes_none] at hot
+    · subst h; simp [ownOp, getMeta, DNode.metas, ofBytes_create] at hot
+    · exact h
+  subst hmt
+  have hkeys : normL13 (keysOf S kt) = normL13 (keysOf S ks) := by
+    simp only [hcop, beq_self_eq_true, Bool.not_true, Bool.false_or, DNode.kids] at hkc
+    exact (dataEqL_iff_norm _ _).mp hkc
+  obtain ⟨x, hx, hdqx, hplt, hgkt⟩ := exactE_delete htex hcop
+  obtain ⟨hy0, hpl, hgks⟩ := exactE_create hsex hsop
+  simp only [DNode.kids] at hplt hgkt hpl hgks
+  obtain ⟨hgx, hxs⟩ := good_look hgL x hx
+  have hgxk := goodN_kidsT hgx
+  have hxt : x.isTerm = false := by rw [(goodN_dom hgx).typed, hxs, ← htd.typed]; rfl
+  have hmem : DNode.inner st ft [("operation", bs "delete")] kt ∈ pre ++ DNode.inner st ft [("operation", bs "delete")] kt :: rest := by
+    simp
+  have hperm : (pre ++ DNode.inner st ft [("operation", bs "delete")] kt :: rest).Perm
+      (DNode.inner st ft [("operation", bs "delete")] kt :: (pre ++ rest)) := List.perm_middle
+  have hT1 := hT.perm hperm
+  have hR1 := hR.perm hperm
+  have hcur' : childInhOf (.inner st ft [("operation", bs "delete")] kt) cur = some .delete :=
+    childInh_of_own _ .delete cur hot (by decide)
+  have hsin' : childInhOf (.inner st f ms ks) sin = some .create := by
+    unfold childInhOf
+    cases ho : ownOp (DNode.inner st f ms ks) with
+    | none => simpa [effOp, ho] using hsop
+    | some o =>
+      have : o = .create := by simpa [effOp, ho] using hsop
+      subst this; rfl
+  rw [hcur', hsin'] at hsafeK
+  simp only [DNode.kids] at hsafeK hkord
+  have hxkt : normL13 x.kids = normL13 kt := by
+    have h1 := (dataEq_iff_norm x (.inner st ft [("operation", bs "delete")] kt)).mp hdqx
+    rw [normN_inner_form hxt] at h1
+    simp only [normN, DNode.inner.injEq] at h1
+    exact h1.2.2.2
+  -- the children of the deleted subtree, `delete` made explicit, on the children of the instance
+  let Tk : List DNode := (noKeys S kt).map fun c => changeOp c .delete
+  have hleadt : keysLead S kt = true := goodT_lead hgkt
+  have hkid : ∀ c ∈ noKeys S kt, c ∈ kt ∧ goodN S P c = true ∧ plainN c = true ∧ S.isKey c.sid = false := by
+    intro c hc
+    have hcm : c ∈ kt := (noKeys_sublist S kt).subset hc
+    exact ⟨hcm, goodL_mem (goodT_goodL hgkt) hcm, plainL_mem hplt hcm, mem_noKeys_notKey hleadt hc⟩
+  obtain ⟨hko, hno⟩ := split_keys (S := S) (kp := keysOf S kt) (M := Tk) (keysOf_all_key S kt)
+    (by
+      intro m hm
+      obtain ⟨c, hc, rfl⟩ := List.mem_map.mp hm
+      simpa using (hkid c hc).2.2.2)
+  have hdkT : dk S true (keysOf S kt ++ Tk) = Tk := by simp only [dk, ↓reduceIte, hno]
+  have hlookx : ∀ c ∈ noKeys S kt, ∃ xc, look S x.kids (changeOp c .delete) = some xc ∧ normN xc = normN c := by
+    intro c hc
+    have h1 : (look S x.kids c).map normN = some (normN c) := by
+      rw [look_norm_congr hxkt, look_self K (goodT_goodL hgkt) (hkid c hc).1]; rfl
+    obtain ⟨xc, h2, h3⟩ := look_some_of_norm h1
+    exact ⟨xc, by rw [look_congr_fun (fun z => matchP_changeOp S c z .delete)]; exact h2, h3⟩
+  have hexTk : exactK S P (some .none) x.kids true (keysOf S kt ++ Tk) = true := by
+    apply exactK_intro true
+    · rw [hdkT]
+      intro tk htk
+      obtain ⟨c, hc, rfl⟩ := List.mem_map.mp htk
+      obtain ⟨_, hgc, hpc, hck⟩ := hkid c hc
+      obtain ⟨xc, hxc, hxn⟩ := hlookx c hc
+      refine ⟨by rw [hxc]; exact exactE_deleted K _ hgc hpc hck hxn, ?_⟩
+      have h1 : KeysBelow S c kt := fun k' hk' => good_keys_lt K hgkt k' hk' c hc
+      have := keysBelow_congr hxkt h1
+      intro k hk
+      simpa using this k hk
+    · rw [hdkT, List.pairwise_map]
+      refine (List.Pairwise.and_mem.mp ((good_pairwise K (goodT_goodL hgkt)).sublist (noKeys_sublist S kt))).imp ?_
+      rintro a b ⟨ha, _, hab, _⟩
+      rw [matchP_changeOp_both (goodN_dom (goodL_mem (goodT_goodL hgkt) ((noKeys_sublist S kt).subset ha))).ndi]
+      exact hab
+  obtain ⟨Ek, _, hTk, _, _⟩ := kids_inv (fx := fx) K hgxk hexTk
+  rw [hno] at hTk
+  have hEk : ∀ c ∈ noKeys S kt, Ek (changeOp c .delete) = none := by
+    intro c hc
+    obtain ⟨_, hgc, hpc, hck⟩ := hkid c hc
+    obtain ⟨xc, hxc, hxn⟩ := hlookx c hc
+    have htkm : changeOp c .delete ∈ Tk := List.mem_map_of_mem hc
+    have h1 := hTk.acts _ htkm
+    rw [hxc] at h1
+    have h2 := acts_delete (fx := fx) (inh := some .none) (y := normN xc) K (dom_changeOp K (goodN_dom hgc) .delete)
+      (by simpa using hck) (effOp_changeOp (by simp [MetaOK, plainN_metas hpc]) .delete)
+    exact Acts.det h1 h2 hgxk (hTk.kb _ htkm) (by rw [hxc])
+  -- what is there after the first diff: nothing; the children of the created subtree start from its (created) keys
+  let Yk : List DNode := mkCreatedL (keysOf S ks)
+  have hnYk : normL13 Yk = normL13 (keysOf S ks) := normL_mkCreatedL _
+  have hgYk : goodT S P Yk = true := by rw [goodT_congr_norm K.pinv hnYk]; exact goodT_keysOf K hgks
+  have hYkeys : ∀ k ∈ Yk, S.isKey k.sid = true := by
+    intro k hk
+    obtain ⟨k0, hk0, rfl⟩ := mem_mkCreatedL hk
+    have := mem_keysOf_isKey hk0
+    cases k0 <;> simpa [mkCreated, DNode.sid] using this
+  have hkYkk : keysOf S Yk = Yk := by
+    unfold keysOf
+    generalize Yk = l at hYkeys
+    induction l with
+    | nil => rfl
+    | cons a as ih =>
+      simp only [List.takeWhile_cons, hYkeys a (List.mem_cons_self ..), ↓reduceIte]
+      rw [ih (fun z hz => hYkeys z (List.mem_cons_of_mem _ hz))]
+  have hkx : normL13 (keysOf S x.kids) = normL13 (keysOf S ks) := by
+    rw [← keysOf_normL, hxkt, keysOf_normL, hkeys]
+  have hRk : Rel S P Tk x.kids Ek Yk := by
+    refine ⟨?_, ?_⟩
+    · intro tk htk
+      obtain ⟨c, hc, rfl⟩ := List.mem_map.mp htk
+      rw [hEk c hc, look_allkeys_none hYkeys (by simpa using (hkid c hc).2.2.2)]
+      rfl
+    · intro q hq hall
+      cases hqk : S.isKey q.sid
+      · have hall' : ∀ b ∈ noKeys S kt, matchP S b q = false := fun b hb => by
+          rw [← matchP_changeOp S b q .delete]; exact hall _ (List.mem_map_of_mem hb)
+        rw [look_nonkey_none K hgkt hxkt hq hqk hall', look_allkeys_none hYkeys hqk]
+      · rw [look_key_front (goodT_lead hgxk) hqk]
+        have h1 : normL13 Yk = normL13 (keysOf S x.kids) := by rw [hnYk, hkx]
+        exact look_norm_congr h1 q
+  have hkYk : ∀ c, KeysBelow S c Yk → KeysBelow S c x.kids := by
+    intro c h
+    apply keysBelow_congr_keys (L := Yk) ?_ h
+    rw [hkYkk, hnYk, hkx]
+  have hkidS : ∀ c ∈ noKeys S ks, c ∈ ks ∧ goodN S P c = true ∧ plainN c = true ∧ S.isKey c.sid = false := by
+    intro c hc
+    have hcm : c ∈ ks := (noKeys_sublist S ks).subset hc
+    exact ⟨hcm, goodL_mem (goodT_goodL hgks) hcm, plainL_mem hpl hcm, mem_noKeys_notKey (goodT_lead hgks) hc⟩
+  have hdk : dk S true ks = noKeys S ks := by simp [dk]
+  have hexks : exactK S P (some .create) Yk true ks = true := by
+    apply exactK_intro true
+    · rw [hdk]
+      intro c hc
+      obtain ⟨_, hgc, hpc, hck⟩ := hkidS c hc
+      refine ⟨by rw [look_allkeys_none hYkeys hck]; exact exactE_plain_create hgc hpc hck, ?_⟩
+      have h1 : KeysBelow S c ks := fun k' hk' => good_keys_lt K hgks k' hk' c hc
+      apply keysBelow_congr_keys (L := ks) ?_ h1
+      rw [hkYkk, hnYk]
+    · rw [hdk]
+      exact ((good_pairwise K (goodT_goodL hgks)).sublist (noKeys_sublist S ks)).imp (fun h => h.1)
+  -- the induction hypothesis
+  obtain ⟨k, rfl⟩ : ∃ k, n = k + 1 := ⟨n - 1, by have := height_pos13 (DNode.inner st f ms ks); omega⟩
+  have hks : heightL ks ≤ k := height_inner_le hh
+  obtain ⟨Mk, Ek', Yk', hmk, hYk', hgYk', _, hTk', hRk'⟩ := IH k true (some .none) (some .create) true (keysOf S kt) Tk x.kids Yk Ek
+    (Or.inr (Or.inr rfl)) hks hgxk hgYk hkYk
+    (by
+      intro kk hkk
+      refine ⟨keysOf_all_key S kt kk hkk, ?_⟩
+      intro c hc
+      rw [hdk] at hc
+      have := List.all_eq_true.mp (List.all_eq_true.mp hkord kk hkk) c hc
+      simpa using this)
+    hTk hRk
+    (by
+      intro c hc tk htk hmc
+      rw [hdk] at hc
+      obtain ⟨c0, hc0, rfl⟩ := List.mem_map.mp htk
+      obtain ⟨_, hgc, hpc, hck⟩ := hkid c0 hc0
+      obtain ⟨xc, hxc, hxn⟩ := hlookx c0 hc0
+      have hcd : Dom S P c := (exactE_base (exactK_mem true ks hexks c (by rw [hdk]; exact hc)).1).1
+      have hmok : MetaOK c0 := by simp [MetaOK, plainN_metas hpc]
+      have hown0 : ownOp (changeOp c0 .delete) = some .delete := ownOp_changeOp hmok .delete
+      refine ⟨⟨by rw [hxc]; exact exactE_deleted K _ hgc hpc hck hxn, ?_, ?_⟩, ?_⟩
+      · rw [changeOp_of_plain hpc]
+        cases c0 with
+        | term s' f' m' v' => simp [DNode.setMetas, litN, litMeta, Op.str]
+        | inner s' f' m' k' =>
+          have hpk : plainL k' = true := by simpa [DNode.kids] using plainN_kids hpc
+          simp [DNode.setMetas, litN, litInner, Op.str, litL_of_plain k' hpk]
+      · refine Or.inl ?_
+        intro op hop _
+        rw [effOp_own' hown0] at hop
+        rw [hown0, Option.some.inj hop]
+      · rw [safeP_congr (t := c0) (cur1 := some .delete) (by simp) ?_ ?_ (by simp)]
+        · exact safeK_mem hsafeK c ((noKeys_sublist S ks).subset hc) c0 hc0
+            (by rw [← matchP_of_same_data_right (x' := changeOp c0 .delete) (x := c0) hcd.ndi (by simp) (by simp) (by simp)]; exact hmc)
+        · rw [effOp_own' hown0]; simp [effOp, plainN_ownOp hpc]
+        · intro _
+          rw [childInh_of_own _ .delete _ hown0 (by decide)]
+          simp [childInhOf, plainN_ownOp hpc])
+    hexks (litL_of_plain ks hpl)
+  rw [hdk] at hYk'
+  -- what the created children make of the keys: the created subtree
+  have hYk'n : normL13 Yk' = normL13 ks := by
+    have h1 := applyF_create (fx := fx) K (n := k) (hp := true) (fun c L h1 h2 h3 => apply_create_plain (fx := fx) K k true c L h1 h2 h3)
+      (noKeys S ks) (keysOf S ks) (by rw [keysOf_append_noKeys]; exact goodT_goodL hgks)
+      (plainL_of_sub hpl (fun z hz => (noKeys_sublist S ks).subset hz)) (Nat.le_trans (heightL_noKeys_le S ks) hks)
+    rw [hYk'] at h1
+    cases h1
+    rw [keysOf_append_noKeys, normL_mkCreatedL]
+  -- the source node on `Y`: the instance is created
+  have hsex0 : exactE S P sin none (.inner st f ms ks) = true := by rw [← hy0]; exact hsex
+  obtain ⟨Y', hY', hgY', hkY', hloc, hval⟩ := acts_create (fx := fx) K hsex0 hsop (k + 1) hp Y hh hgY hkb (by rw [hy0]; rfl)
+  -- the cell `create` on `delete`
+  have hndi : S.isDupInst st = false := htd.ndi
+  have hnuo : S.isUserOrd st = false := htd.nuo
+  have hSt : S.isTerm st = false := by have := hsd.typed; simpa [DNode.isTerm, DNode.sid] using this.symm
+  have hsame : sameInst S (.inner st ft [("operation", bs "delete")] kt) (.inner st f ms ks) = true :=
+    sameInst_of_matchP_inner hsd rfl hm
+  let t1 : DNode := .inner st ft [("operation", bs "none")] (keysOf S kt ++ Tk)
+  have hcell : mergeCell S o .create (.inner st ft [("operation", bs "delete")] kt) .delete (.inner st f ms ks) = .ok (t1, false) := by
+    show mergeCreate S o _ .delete _ = _
+    exact mergeCreate_delete_inner S o st ft kt _ hsame hnuo hSt
+  have hown1 : ownOp t1 = some .none := ownOp_of_metas t1 .none rfl
+  have hMk : ∀ m ∈ Mk, S.isKey m.sid = false := hTk'.lvl.nokey
+  obtain ⟨hko2, hno2⟩ := split_keys (S := S) (keysOf_all_key S kt) hMk
+  have hkids : (fun (c' s' : Option Op) (tk : List DNode) =>
+      if (DNode.inner st f ms ks).isTerm then Except.ok tk else mergeKids S o c' s' true (DNode.inner st f ms ks).kids tk)
+      (childInhOf t1 cur) (childInhOf (.inner st f ms ks) sin) t1.kids = .ok (keysOf S kt ++ Mk) := by
+    simp only [DNode.isTerm, Bool.false_eq_true, ↓reduceIte, pj_kids_inner, hsin',
+      childInh_of_own t1 .none cur hown1 (by decide)]
+    exact hmk
+  have hpre' : ∀ a ∈ kp ++ pre, matchP S (.inner st f ms ks) a = false := by
+    intro a ha
+    rcases List.mem_append.mp ha with ha | ha
+    · exact matchP_key_lt (hkp a ha).2
+    · exact hpre a ha
+  have hassoc : kp ++ (pre ++ DNode.inner st ft [("operation", bs "delete")] kt :: rest) =
+      (kp ++ pre) ++ DNode.inner st ft [("operation", bs "delete")] kt :: rest := by simp
+  let t' : DNode := .inner st ft [("operation", bs "none")] (keysOf S kt ++ Mk)
+  have hsetk : t1.setKids (keysOf S kt ++ Mk) = t' := rfl
+  have hopt' : effOp t' cur = some .none := effOp_own' (ownOp_of_metas t' .none rfl) cur
+  obtain ⟨V', hA', hU'⟩ := hTk'.actsL K hgxk
+  have hVV : normL13 Yk' = V' := hU' Yk' hgYk' hRk'
+  have hvalx : (look S Y' (.inner st f ms ks)).map normN = some (.inner st {} [] V') := by
+    rw [hval, ← hVV, hYk'n]; rfl
+  cases hMe : Mk with
+  | nil =>
+    -- the recreated instance is the deleted one: the node is dropped
+    subst hMe
+    have hred : (isRedundant S cur (t1.setKids (keysOf S kt ++ []))).2 = true := by
+      rw [hsetk]
+      exact redundant_none_nokids S cur _ hopt' hSt (by simpa [t', DNode.kids] using hno2)
+    have hstep := mergeStep_cancel S o cur sin (.inner st f ms ks) (.inner st ft [("operation", bs "delete")] kt) t1 (kp ++ pre) rest
+      (keysOf S kt ++ []) .create .delete
+      (fun c' s' tk => if (DNode.inner st f ms ks).isTerm then Except.ok tk
+        else mergeKids S o c' s' true (DNode.inner st f ms ks).kids tk)
+      hsop hcop hpre' hm hndi hndi hcell hkids hred
+    rw [← mergeR_eq, ← hassoc] at hstep
+    have hV'x : V' = normL13 x.kids := by
+      obtain ⟨X1, h1, _, _, h4⟩ := hA' 0 true x.kids (by simp [heightL]) hgxk rfl
+      simp only [applyF_nil] at h1
+      cases h1
+      exact h4.symm
+    have hvalx' : (look S Y' (.inner st f ms ks)).map normN = (look S L (.inner st ft [("operation", bs "delete")] kt)).map normN := by
+      rw [hvalx, hx, hV'x]
+      simp only [Option.map_some, Option.some.injEq, normN_inner_form hxt, hxs]
+      rfl
+    obtain ⟨hT2, hR2⟩ := tinv_drop K hT1 hR1 hgL hsd hm hloc hvalx' hgY'
+    exact ⟨pre ++ rest, E, Y', by rw [hstep]; simp, hY', hgY', hkY', hloc, hT2, hR2,
+      fun z hz => Or.inl (by rcases List.mem_append.mp hz with h | h <;> simp [h])⟩
+  | cons m0 Mr =>
+    have hne : (noKeys S (keysOf S kt ++ Mk)).isEmpty = false := by rw [hno2, hMe]; rfl
+    have hredf : isRedundant S cur t' = (t', false) := by
+      unfold isRedundant
+      simp [hopt', t', DNode.sid, DNode.kids, hSt, hndi, hnuo, hne, op_beq]
+    have hstep := mergeStep_keep S o cur sin (.inner st f ms ks) (.inner st ft [("operation", bs "delete")] kt) t1 (kp ++ pre) rest
+      (keysOf S kt ++ Mk) .create .delete
+      (fun c' s' tk => if (DNode.inner st f ms ks).isTerm then Except.ok tk
+        else mergeKids S o c' s' true (DNode.inner st f ms ks).kids tk)
+      hsop hcop hpre' hm hndi hndi hcell hkids (by rw [hsetk, hredf])
+    rw [← mergeR_eq, ← hassoc, hsetk, hredf] at hstep
+    have hmd : Dom S P t' := by
+      refine ⟨hnuo, hndi, by have := htd.typed; simpa [t', DNode.isTerm, DNode.sid] using this, ?_⟩
+      rw [K.pinv.pcongr (x := t') (y := .inner st ft [("operation", bs "delete")] kt) rfl rfl (by simp only [t', DNode.kids, hko2])]
+      exact htd.sat
+    have hmm : ∀ z, matchP S t' z = matchP S (.inner st ft [("operation", bs "delete")] kt) z := fun z =>
+      matchP_of_same_keys (d := .inner st ft [("operation", bs "delete")] kt) (d' := t') hndi rfl rfl
+        (by simp only [t', DNode.kids, hko2]) z
+    have hactm : Acts S P fx cur t' ((look S L (.inner st ft [("operation", bs "delete")] kt)).map normN)
+        (some (.inner st {} [] V')) := by
+      rw [hx]
+      apply acts_none_inner (y := normN x) K hmd htk hopt' hne
+      rw [hno2, childInh_of_own t' .none cur (ownOp_of_metas t' .none rfl) (by decide)]
+      simpa using hA'
+    obtain ⟨hT2, hR2⟩ := tinv_set K hT1 hR1 hmd htk hmm rfl hactm hsd hm hloc hvalx hgY'
+    have hperm2 : (t' :: (pre ++ rest)).Perm (pre ++ t' :: rest) := List.perm_middle.symm
+    refine ⟨pre ++ t' :: rest, _, Y', by rw [hstep]; simp [t'], hY', hgY', hkY', hloc, hT2.perm hperm2, hR2.perm hperm2, ?_⟩
+    intro z hz
+    rcases List.mem_append.mp hz with h | h
+    · exact Or.inl (by simp [h])
+    · rcases List.mem_cons.mp h with rfl | h
+      · exact Or.inr (matchP_src_of_left K hsd htd hmd hmm hm)
+      · exact Or.inl (by simp [h])
+
 /-! ### the induction over the source diff -/
 
 theorem listMerge_nil (S : Schema) (o : MergeOpts) : ListMergeSpec S P fx o [] := by
@@ -1826,15 +2191,16 @@ theorem nodeMerge {S : Schema} (K : KeyOrderOn S P) {o : MergeOpts}
       have hops : (effOp t cur = some .none ∧ effOp (DNode.inner s f ms ks) sin = some .none) ∨
           (effOp t cur = some .none ∧ effOp (DNode.inner s f ms ks) sin = some .delete) ∨
           (effOp t cur = some .create ∧ effOp (DNode.inner s f ms ks) sin = some .delete) ∨
-          (effOp t cur = some .create ∧ effOp (DNode.inner s f ms ks) sin = some .none) := by
+          (effOp t cur = some .create ∧ effOp (DNode.inner s f ms ks) sin = some .none) ∨
+          (effOp t cur = some .delete ∧ effOp (DNode.inner s f ms ks) sin = some .create) := by
         have h := hsafe
         simp only [safeP, Bool.and_eq_true] at h
-        have h2 := h.1.1.2
+        have h2 := h.1.1.1.2
         revert h2
         cases effOp t cur <;> cases effOp (DNode.inner s f ms ks) sin <;> simp [meetOps]
         rename_i a b
         cases a <;> cases b <;> simp [meetOps]
-      rcases hops with ⟨h1, h2⟩ | ⟨h1, h2⟩ | ⟨h1, h2⟩ | ⟨h1, h2⟩
+      rcases hops with ⟨h1, h2⟩ | ⟨h1, h2⟩ | ⟨h1, h2⟩ | ⟨h1, h2⟩ | ⟨h1, h2⟩
       · exact merge_matched_inner K (listMerge K hq ks) hh hgL hgY hkp hT hR
           (fun a ha => by simpa using hpre a ha) hm hO hsafe h1 h2 hsex hls hkb
       · exact merge_matched_inner_nd K (listMerge K hq ks) hh hgL hgY hkp hT hR
@@ -1843,6 +2209,8 @@ theorem nodeMerge {S : Schema} (K : KeyOrderOn S P) {o : MergeOpts}
           (fun a ha => by simpa using hpre a ha) hm hO hsafe h1 h2 hsex hkb
       · exact merge_matched_inner_cn K (listMerge K hq ks) hh hgL hgY hkp hT hR
           (fun a ha => by simpa using hpre a ha) hm hO hsafe h1 h2 hsex hls hkb
+      · exact merge_matched_inner_dc K (listMerge K hq ks) hh hgL hgY hkp hT hR
+          (fun a ha => by simpa using hpre a ha) hm hO hsafe h1 h2 hsex hkb
   | .term s f ms v => by
     intro n hp cur sin kp Tb L Y E hsin hh hgL hgY hkY hkp hT hR hmeet hsex hls hkb
     cases hfind : Tb.find? (matchP S (.term s f ms v)) with
